@@ -309,3 +309,45 @@ _run_1b = run
 def run(ctx, rep):
     _run_1b(ctx, rep)
     run_no_handle_on_deleted(ctx, rep)
+
+
+# ---------------------------------------------------------------------------------------------
+# R1.3b  "empty" means what a listing shows: Dir::is_empty looks at the directory through the same iterator as `iter()` (which
+#        drops deleted slots, orphaned long-name slots and volume labels), not at raw slots of its own
+
+def run_is_empty_view(ctx, rep):
+    facts = ctx.facts
+    fn = facts.fns.get('fatfs::dir::Dir::is_empty')
+    if fn is None:
+        return
+    raw = [(b, t) for b, t in fn.calls() if (t.get('callee') or '').endswith(('DirEntryData::deserialize', 'DirFileEntryData::deserialize'))]
+    via_iter = any((t.get('callee') or '').endswith(('Dir::iter', 'DirIter::new')) or
+                   ((t.get('callee') or '').endswith('Iterator::next') and t['args'] and
+                    ((lambda ty: (ty or {}).get('path', ''))(_deref_ty(fn, t['args'][0]))).endswith('DirIter'))
+                   for b, t in fn.calls())
+    ok = not raw and via_iter
+    rep.oblige('R1.3b', fn.name, ok=ok, nontrivial=True, sample={'fn': fn.name, 'raw_slot_reads': len(raw), 'uses_dir_iter': via_iter})
+    if not ok:
+        rep.violation('R1.3b', vkey('R1.3b', fn.name, 'own-slot-scan', ''), fn.loc(raw[0][1]['span']) if raw else fn.loc(fn.span),
+                      'Dir::is_empty decides emptiness on raw directory slots of its own instead of through the directory iterator: '
+                      'slots a listing does not show (orphaned long-name slots, a volume label) make an empty directory '
+                      'non-removable - or the other way round')
+
+
+def _deref_ty(fn, o):
+    p = op_place(o)
+    if p is None or p['p']:
+        return None
+    ty = fn.local_ty(p['l'])
+    for _ in range(3):
+        if ty is not None and ty.get('k') in ('ref', 'ptr'):
+            ty = fn.types[ty['to']]
+    return ty
+
+
+_run_1c = run
+
+
+def run(ctx, rep):
+    _run_1c(ctx, rep)
+    run_is_empty_view(ctx, rep)
